@@ -173,8 +173,8 @@ def _gallery_instances(tier, root="/repo"):
         for o, w in sorted(wins):
             nm = "gallery %s (%s): bytes[%d:%d] symbolic" % (expr, sample if len(sample) < 20 else sample[:12] + "..", o, o + w)
             if key == "dns" and o + w > 12 and o < size - 4:
-                # the name region: inputs with a '.' byte inside a label are a recorded finding (known_findings.json);
-                # they are explored as instances of their own so that everything else stays a hard obligation
+                # the name region: inputs with a '.' byte inside a label were a recorded finding until the escaping fix in
+                # deprecated_gallery/ipstack.py; they stay instances of their own (both classes are hard obligations now)
                 out.append(dict(name=nm + ", no 0x2e in the window", params=dict(gallery=key, off=o, w=w, dot=False), expect=["accept"]))
                 out.append(dict(name=nm + ", a 0x2e ('.') in the window", params=dict(gallery=key, off=o, w=w, dot=True)))
                 continue
@@ -183,12 +183,8 @@ def _gallery_instances(tier, root="/repo"):
             # insertions (one symbolic byte pushed in at every offset) and truncations (every prefix, its last two bytes symbolic)
             tag = "gallery %s (%s)" % (expr, sample if len(sample) < 20 else sample[:12] + "..")
             for o in range(0, size + 1):
-                if key == "dns" and 12 <= o <= size - 4:
-                    continue            # an inserted 0x2e inside the name is the recorded finding; covered by the window family
                 out.append(dict(name="%s: one symbolic byte inserted at %d" % (tag, o), params=dict(gallery=key, ins=o)))
             for k in range(1, size):
-                if key == "dns" and k > 12:
-                    continue
                 out.append(dict(name="%s: truncated to %d bytes, the last two symbolic" % (tag, k), params=dict(gallery=key, trunc=k)))
     return out
 
